@@ -3,6 +3,7 @@ package main
 import (
 	"fmt"
 	"go/token"
+	"os"
 	"sort"
 	"strings"
 
@@ -327,6 +328,10 @@ func init() {
 		// assumption (2) of the race check is itself checked: slices published
 		// into the primary's pool are not written again
 		ruleRetain(r)
+		rulePublishedBytes(r)
+		if os.Getenv("STHLINT_TIER") == "thorough" {
+			extendedRootsInfo(r)
+		}
 		r.Sites = len(la.accesses)
 	},
 		"Decides a structural necessary condition of data-race freedom, not the behaviour: an interprocedural must-hold lockset analysis over go/ssa from the thread roots named in the statement (public calls FG, flusher FL, index GC supervisor+cycle, primary GC supervisor+cycle). For every struct field of the store's shared types (map/slice contents merged into the field) and every pair of accesses with at least one write reachable from concurrently runnable roots, a common lock must be held, exclusively on one side. Also: lock acquire/release balanced on every path, and the acquired-while-holding relation is acyclic. Not covered: happens-before through channels, aliasing the field abstraction does not see, Open/Close/iterator entry points.",
